@@ -1557,5 +1557,5 @@ func TestLayouts(t *testing.T) {
 }
 
 func TestReplay(t *testing.T) {
-	core.Replay(t, proofCheck, sweepCheck, stateInitCheck, lockupCheck, ageCheck, clockCheck, concurrentCheck)
+	core.Replay(t, proofCheck, sweepCheck, stateInitCheck, lockupCheck, ageCheck, clockCheck, concurrentCheck, sequenceCheck)
 }
